@@ -139,7 +139,8 @@ def gen_uv(rng):
             rng.shuffle(w)
         sw = sum(w)
         qs.append([i] + [x / sw for x in w])
-    return {"k": "c20.uv", "verts": verts, "faces": f, "uvs": uvs, "queries": qs, "kind": kind}
+    fr = [rng.uniform(-10, 10) for _ in range(3)] + [rng.uniform(-2, 2) for _ in range(3)]
+    return {"k": "c20.uv", "verts": verts, "faces": f, "uvs": uvs, "queries": qs, "kind": kind, "frame": rng.choice([fr, fr, [0.0] * 6])}
 
 
 def corpus():
@@ -249,3 +250,11 @@ def oracle(c, r):
             if o["from3"] is None or math.dist(o["from3"][0], o["uv"]) > 1e-9 * scale or abs(o["from3"][1]) > 1e-9:
                 yield ("uv-from-3d", what + ": surface point %r -> uv %r (depth %r), expected %r" % (o["p3"], None if o["from3"] is None else o["from3"][0], None if o["from3"] is None else o["from3"][1], o["uv"]))
                 return
+            ft = o.get("from3_t")
+            if ft is not None:
+                # the query expressed in another frame, with the transform into the mesh's frame: same answer
+                slack = 1e-7 * max(1.0, scale, max(abs(x) for x in c["frame"][:3]))
+                if ft["r"] is None or math.dist(ft["r"][0], o["uv"]) > slack or abs(ft["r"][1]) > slack:
+                    yield ("uv-from-3d-frame", what + ": surface point %r given in the frame %r with its transform -> uv %r, expected %r" % (
+                        o["p3"], c["frame"], None if ft["r"] is None else ft["r"], o["uv"]))
+                    return
